@@ -22,12 +22,23 @@ import (
 
 var seqSame bool
 
+// RFC 3526, 2048-bit MODP group (id 14): 2^2048 - 2^1984 - 1 + 2^64 * ([2^1918 pi] + 124476)
+const rfc3526Group14 = `
+FFFFFFFF FFFFFFFF C90FDAA2 2168C234 C4C6628B 80DC1CD1 29024E08 8A67CC74 020BBEA6 3B139B22 514A0879 8E3404DD
+EF9519B3 CD3A431B 302B0A6D F25F1437 4FE1356D 6D51C245 E485B576 625E7EC6 F44C42E9 A637ED6B 0BFF5CB6 F406B7ED
+EE386BFB 5A899FA5 AE9F2411 7C4B1FE6 49286651 ECE45B3D C2007CB8 A163BF05 98DA4836 1C55D39A 69163FA8 FD24CF5F
+83655D23 DCA3AD96 1C62F356 208552BB 9ED52907 7096966D 670C354E 4ABC9804 F1746C08 CA18217C 32905E46 2E36CE3B
+E39E772C 180E8603 9B2783A2 EC07A28F B5C55DF0 6F4C52C9 DE2BCBF6 95581718 3995497C EA956AE5 15D22618 98FA0510
+15728E5A 8AACAA68 FFFFFFFF FFFFFFFF`
+
 func srpPassword(class string, rng *rand.Rand) string {
 	switch class {
 	case "multibyte":
 		return "пароль-密码-🔑" + fmt.Sprint(rng.Intn(1000))
 	case "long":
 		return strings.Repeat("correct horse battery staple ", 20) + fmt.Sprint(rng.Intn(1000))
+	case "huge":
+		return strings.Repeat("correct horse battery staple ", 52) + fmt.Sprint(rng.Intn(1000)) + " and its very end"
 	case "spaced":
 		return []string{" ", "\t", "\u00a0", "\u3000"}[rng.Intn(4)] + "pass word" + fmt.Sprint(rng.Intn(1000)) + []string{" ", "\n", "\r\n", "\u2003"}[rng.Intn(4)]
 	case "blank":
@@ -43,9 +54,12 @@ func init() {
 		seed := fs.Int64("seed", 1, "")
 		fs.Parse(args)
 		rep := NewReport()
-		p := refsrv.DHPrime
-		pBytes := p.Bytes()
-		g := int32(3)
+		// the groups of the case set: Telegram's prime and the 2048-bit safe prime of RFC 3526 (group 14)
+		rfc3526, _ := new(big.Int).SetString(strings.Join(strings.Fields(rfc3526Group14), ""), 16)
+		if rfc3526 == nil || rfc3526.BitLen() != 2048 || !rfc3526.ProbablyPrime(16) || !new(big.Int).Rsh(rfc3526, 1).ProbablyPrime(16) {
+			must(fmt.Errorf("the second group's modulus is not a 2048-bit safe prime"))
+		}
+		primes := map[string]*big.Int{"tg": refsrv.DHPrime, "rfc3526": rfc3526}
 		var mu sync.Mutex
 		var wg sync.WaitGroup
 		sem := make(chan struct{}, 16)
@@ -67,6 +81,18 @@ func init() {
 				pwClass = "ascii"
 			}
 			password := srpPassword(pwClass, rng)
+			grp := c.Str("group")
+			if grp == "" {
+				grp = "tg:3"
+			}
+			gp := strings.SplitN(grp, ":", 2)
+			p := primes[gp[0]]
+			if p == nil {
+				return fmt.Errorf("unknown group %q", grp)
+			}
+			pBytes := p.Bytes()
+			var g int32
+			fmt.Sscan(gp[1], &g)
 			if seqSame { // the sequential tail: one password, salts by length only
 				password = "one and the same password"
 			}
@@ -78,7 +104,6 @@ func init() {
 			if seqSame {
 				salt1 = bytes.Repeat([]byte{0x5a}, s1n) // equal first salts for equal lengths; the second salt differs from case to case
 			}
-			pBytes := pBytes
 			if idx%2 == 1 {
 				// the parameters as one decoder would hand them over: slices of one buffer, each with the others behind it
 				// within its capacity (the caller's parameters are not the client's scratch space)
@@ -117,7 +142,7 @@ func init() {
 			}
 			v := evalDef("v")
 			corner, lz := c.Str("corner"), c.Int("lz")
-			cls := fmt.Sprintf("%s:corner=%s:lz=%d:pw=%s:salts=%d,%d", c.Kind, corner, lz, pwClass, s1n, s2n)
+			cls := fmt.Sprintf("%s:corner=%s:lz=%d:pw=%s:salts=%d,%d:group=%s", c.Kind, corner, lz, pwClass, s1n, s2n, grp)
 			info := map[string]interface{}{"class": cls, "password": password, "salt1": fmt.Sprintf("%x", salt1), "salt2": fmt.Sprintf("%x", salt2), "seed": *seed}
 			B := evalDef("B")
 			if corner == "B" {
